@@ -799,6 +799,22 @@ impl Context {
                         self.add_bind_pattern(&tpat, elem_v, elem_t, is_global);
                     };
                 }
+                // Fields the pattern does not name still belong to the destructured copy that is
+                // released at scope exit, so they need their own references as well (the tuple
+                // arm above clones every element, including the ones bound to `_`).
+                for (offset, field) in kvvec.iter().enumerate() {
+                    let named = patterns.iter().any(|(k, _)| *k == field.key);
+                    let counted = field.ty.to_type().contains_boxed()
+                        || field.ty.to_type().contains_function();
+                    if !named && counted {
+                        let elem_v = self.push_inst(Instruction::GetElement {
+                            value: v.clone(),
+                            ty,
+                            tuple_offset: offset as u64,
+                        });
+                        self.insert_clone_recursively(elem_v, field.ty);
+                    }
+                }
             }
             _ => {
                 panic!("typing error in the previous stage")
